@@ -66,15 +66,15 @@ func thoroughExtras(c *Ctx, p *propInfo, r *Rep, extra map[string]any) {
 type mutant struct {
 	ID       string   `json:"id"`
 	Property string   `json:"property"`
-	Rule     string   `json:"rule"`   // rule id prefix expected to fire ("" for negative controls)
-	File     string   `json:"file"`   // relative to the repo
+	Rule     string   `json:"rule"` // rule id prefix expected to fire ("" for negative controls)
+	File     string   `json:"file"` // relative to the repo
 	Old      string   `json:"old"`
 	New      string   `json:"new"`
-	Edits    []medit  `json:"edits"`  // further edits (multi-site mutants)
+	Edits    []medit  `json:"edits"`    // further edits (multi-site mutants)
 	Negative bool     `json:"negative"` // behaviour-preserving edit: must stay silent
 	Props    []string `json:"properties"`
 	Why      string   `json:"why"`
-	Patch    string   `json:"-"` // unified diff (the independently seeded changes under /verif/seeded)
+	Patch    string   `json:"-"`    // unified diff (the independently seeded changes under /verif/seeded)
 	Base     string   `json:"base"` // a refactoring under /verif/seeded (e.g. "neg/N6-1") applied first: the edits then break the REFACTORED code
 }
 
